@@ -18,7 +18,7 @@ def main(tier):
         for nolock in ("FALSE", "TRUE"):
             cfg = lib.os.path.join(lib.BUILD, f"MC_DedupeOps_c20_{op}_{nolock}.cfg")
             with open(cfg, "w") as f:
-                f.write(f'CONSTANTS\n  Op = "{op}"\n  NoLock = {nolock}\n  MaxFaults = 1\n  Collision = FALSE\n'
+                f.write(f'CONSTANTS\n  Op = "{op}"\n  NoLock = {nolock}\n  MaxFaults = 1\n  Collision = FALSE\n  SameIno = FALSE\n  TruncOnOpen = FALSE\n'
                         "SPECIFICATION Spec\nINVARIANTS LockedLeftAlone Atomic RetainedUntouched\nCHECK_DEADLOCK FALSE\n")
             res = lib.run_tlc("MC_DedupeOps.tla", cfg, workers=4, timeout=600)
             chk.add_tlc(f"MC_DedupeOps[{op},nolock={nolock}]", res)
